@@ -640,6 +640,27 @@ def rule_metric_store(ctx, rid):
                             d = P.resolve_callee(fi.module, fi, st.value.func).dotted or ''
                             if d.endswith('project_subset_to_cycles') or d.endswith('project_chain_to_cycles'):
                                 prov = True
+                if not (guard or prov):
+                    # the same two questions on the evaluated paths (temporaries, helpers and renamed locals do not
+                    # hide the projection or the length test there)
+                    try:
+                        exs = Evaluator(P).run(fi)
+                    except Exception:
+                        exs = []
+                    stores = 0
+                    allok = True
+                    for e_ in exs:
+                        for eff in e_.state.effects:
+                            if eff[0] == 'setitem' and eff[1] == _self_attr('metrics') and eff[4] == node.lineno:
+                                stores += 1
+                                p_ = any(t_[0] == 'call' and t_[1].endswith(('project_subset_to_cycles',
+                                                                            'project_chain_to_cycles'))
+                                         for t_ in subterms(eff[3]))
+                                g_ = any('ncycles' in show(cd_) and 'len(' in show(cd_) for cd_, tr_, ln_ in e_.state.conds)
+                                if not (p_ or g_):
+                                    allok = False
+                    if stores and allok:
+                        prov = True
                 if guard or prov:
                     ctx.passed(rid, fi, c, 'guarded' if guard else 'projection onto cycles', node=node)
                 else:
